@@ -52,6 +52,7 @@ type Contract struct {
 	Asserts     []*Clause // (unused)
 	Regions     []*Region
 	Callsites   []*Callsite
+	Reveals     []string
 	MayPanic    bool // function is allowed to panic (callers get no guarantee either)
 }
 
@@ -81,9 +82,13 @@ type PureFn struct {
 	Line    int
 	// Uninterpreted: declared with no body
 	Uninterp bool
+	// Opaque: has a body, but uses see only an uninterpreted application (over the arguments and the
+	// heaps the body reads) unless the enclosing contract says "reveal <name>".
+	Opaque bool
 }
 
 type Lemma struct {
+	Reveals  []string
 	Name     string
 	PkgPath  string
 	Params   []Param
@@ -111,7 +116,7 @@ func newSpecs() *Specs {
 	return &Specs{Contracts: map[string]*Contract{}, Pures: map[string]*PureFn{}, Lemmas: map[string]*Lemma{}}
 }
 
-var keywordRe = regexp.MustCompile(`^(package|func|requires|ensures|modifies|loop|trusted|inline|noinline|maypanic|pure|uninterp|lemma|global|region|from|to|params|callsite)\b`)
+var keywordRe = regexp.MustCompile(`^(package|func|requires|ensures|modifies|loop|trusted|inline|noinline|maypanic|pure|uninterp|lemma|global|region|from|to|params|callsite|opaque|reveal)\b`)
 
 // expandKey turns "(*T).M" / "(T).M" / "F" into the ssa qualified name for pkgPath.
 // Keys that already contain a '/' or a '.' before the first '(' are taken as written.
@@ -410,7 +415,15 @@ func (sp *Specs) ParseFile(path string, defaultPkg string) {
 			if curRegion != nil {
 				curRegion.To = rest
 			}
-		case "pure", "uninterp":
+		case "reveal":
+			if cur != nil {
+				for _, n := range splitTop(rest) {
+					cur.Reveals = append(cur.Reveals, n)
+				}
+			} else if curLemma != nil {
+				curLemma.Reveals = append(curLemma.Reveals, splitTop(rest)...)
+			}
+		case "pure", "uninterp", "opaque":
 			cur, curLemma, curRegion = nil, nil, nil
 			// pure name(params) T = expr      |  uninterp name(params) T
 			op := strings.Index(rest, "(")
@@ -428,7 +441,10 @@ func (sp *Specs) ParseFile(path string, defaultPkg string) {
 			after := strings.TrimSpace(rest[cl+1:])
 			pf := &PureFn{Name: name, PkgPath: pkg, Params: params, File: path, Line: rc.line, Text: rest}
 			tyText := after
-			if kw == "pure" {
+			if kw == "opaque" {
+				pf.Opaque = true
+			}
+			if kw == "pure" || kw == "opaque" {
 				eq := strings.Index(after, "=")
 				if eq < 0 {
 					sp.errf(path, rc.line, "pure function needs '= expr'")
